@@ -194,6 +194,20 @@ def consistency(g, label: str = "consistency") -> None:
         else:
             n = math.hypot(a, d)
             mon.check(abs(abs(r.x) - n) <= 1e-9 * n and abs(r.x * r.y - det) <= 1e-9 * abs(det), label + ".resolution", lambda: wit({"resolution": [r.x, r.y]}), key="resolution", cls=fam, sig=sig)
+    else:
+        # control-point boxes: the reported pixel size is that of the box's own pixels (view affine included), i.e. what one pixel step maps to around the centre
+        r, ex = call(lambda: g.resolution)
+        if ex is not None:
+            mon.fail(label + ".resolution", wit({"exc": ex}), key="resolution-raises", cls=fam)
+        else:
+            cxp, cyp = g.shape[1] / 2, g.shape[0] / 2
+            pw, ex2 = call(lambda: g.pix2wld(np.array([cxp - 0.5, cxp + 0.5, cxp, cxp]), np.array([cyp, cyp, cyp - 0.5, cyp + 0.5])))
+            if ex2 is None:
+                wx, wy = np.asarray(pw[0], dtype="float64"), np.asarray(pw[1], dtype="float64")
+                sx, sy = math.hypot(wx[1] - wx[0], wy[1] - wy[0]), math.hypot(wx[3] - wx[2], wy[3] - wy[2])
+                okr = sx > 0 and sy > 0 and 0.75 <= abs(r.x) / sx <= 1.33 and 0.75 <= abs(r.y) / sy <= 1.33
+                mon.check(okr, label + ".resolution", lambda: wit({"resolution": [r.x, r.y], "one_pixel_step_maps_to": [sx, sy]}), key="gcp-resolution", cls=fam, sig=sig)
+    if linear:
         # (4) coordinate labels
         cc, ex = call(lambda: g.coordinates)
         off = max(abs(b), abs(d))
